@@ -153,7 +153,11 @@ func keyPtr(st *types.Stat) any {
 
 func fmtNotes(ns []h.Note) []string {
 	var out []string
-	for _, n := range ns {
+	for i, n := range ns {
+		if i >= 24 {
+			out = append(out, fmt.Sprintf("... (%d more)", len(ns)-i))
+			break
+		}
 		out = append(out, n.Kind+" "+n.Path)
 	}
 	return out
